@@ -73,6 +73,7 @@ FAM_THOROUGH = FAM_QUICK + [
     ("dy-cross", "dyadic", {"A": "Lb", "B": "Tb"}, {"A": "Lc", "B": "Td"}),     # A up, B down
     ("dy-compound", "dyadic", {"A": "Mb*Lb/Tb**2", "B": "1/Ta"}, {"A": "Ma*La/Tb**2", "B": "1/Tb"}),
     ("dy-area", "dyadic", {"A": "Lb**2", "B": "Tb/Lb"}, {"A": "La**2", "B": "Ta/Lb"}),
+    ("dy-both-0d-array", "dyadic", {"A": "Lb", "B": "Tb"}, {"A": "La", "B": "Td"}),   # 0-d operands as unyt_array instead of unyt_quantity
     ("ord", "ordinary", {"A": "m", "B": "s"}, {"A": "cm", "B": "ms"}),
     ("ord-compound", "ordinary", {"A": "kg*m/s**2", "B": "1/ms"}, {"A": "g*cm/s**2", "B": "1/s"}),
 ]
@@ -206,8 +207,9 @@ def _sorted_flat(a):
     return np.sort(a)
 
 
-def compare_leaf(x1, x2, kind, case_eps, unordered=False):
-    """rule 1 on one pair of leaves. -> None | ('discard', why) | (failure kind, detail)"""
+def compare_leaf(x1, x2, kind, case_eps, unordered=False, floor=0.0):
+    """rule 1 on one pair of leaves. -> None | ('discard', why) | (failure kind, detail[, relative deviation])
+    floor (ordinary units only): largest magnitude among the base run's input numbers - the absolute rounding-noise floor"""
     k1, k2 = leaf_kind(x1), leaf_kind(x2)
     if k1 == "opaque" or k2 == "opaque":
         return None if k1 == k2 else ("nesting-or-shape-depends-on-units", f"{type(x1).__name__} vs {type(x2).__name__}")
@@ -286,10 +288,14 @@ def compare_leaf(x1, x2, kind, case_eps, unordered=False):
         fin = fin1 & fin2
         special = np.array_equal(np.where(fin, 0, v1), np.where(fin, 0, v2), equal_nan=True)
         mag = max(float(np.max(np.abs(v1[fin]))) if fin.any() else 0.0, float(np.max(np.abs(v2[fin]))) if fin.any() else 0.0)
-        close = special and bool(np.all(np.abs(np.where(fin, v1, 0) - np.where(fin, v2, 0)) <= tol * eps * mag))
+        dev = float(np.max(np.abs(np.where(fin, v1, 0) - np.where(fin, v2, 0)))) if fin.any() else 0.0
+        # ordinary units: results far below the magnitude of the inputs are rounding noise of the base run's own numbers
+        bound = tol * eps * (mag if kind == "dyadic" else max(mag, floor * abs(s1)))
+        close = special and dev <= bound
+    rel = dev / mag if mag > 0 else 0.0
     if close:
-        return None if kind != "dyadic" else ("not-bit-exact", _detail(x1, x2, a1, a2, s1, s2, k1))
-    return (what, _detail(x1, x2, a1, a2, s1, s2, k1))
+        return None if kind != "dyadic" else ("not-bit-exact", _detail(x1, x2, a1, a2, s1, s2, k1), rel)
+    return (what, _detail(x1, x2, a1, a2, s1, s2, k1), rel if special else 1.0)
 
 
 def _detail(x1, x2, a1, a2, s1, s2, k):
@@ -414,13 +420,14 @@ def worker(batch, rec):
     quick = tier == "quick"
     fams = FAM_QUICK if quick else FAM_THOROUGH
     dtypes = ("f8", "i8", "c16", "f4") if quick else ("f8", "i8", "c16", "f4", "i4", "c8")
-    draws = [("int", 0), ("frac", 1), ("gen", 2), ("zero", 3)] if quick else [(("int", "frac", "gen")[i % 3], i) for i in range(12)] + [("zero", 12)]
+    draws = [("int", 0), ("frac", 1), ("gen", 2), ("zero", 3)] if quick else [(("int", "frac", "gen")[i % 3], i) for i in range(18)] + [("zero", 18)]
     reg = dyadic.registry(unyt, TABLE)
     wraps = {}
     for name, kind, base, var in fams:
         r = reg if kind == "dyadic" else None
         fac = family_factors(kind, base, var)
-        wraps[name] = (kind, make_wrap(unyt, r, base, {}), make_wrap(unyt, r, var, fac), base)
+        zd = "array" if name.endswith("0d-array") else "quantity"
+        wraps[name] = (kind, make_wrap(unyt, r, base, {}, zd), make_wrap(unyt, r, var, fac, zd), base)
     bf = nc.by_function()
     for fname in payload["funcs"]:
         fails = {}     # (failure kind, where) -> [entry]
@@ -578,12 +585,22 @@ def judge_case(t, call, layout, shape, dt, fam, kind, w1, w2, base, slots, rec, 
                     pairs.append(("operand#%d" % n, x, y))
             n += 1
     bad = 0
+    floor = 0.0
+    if kind != "dyadic":
+        for _, q, x in o1[2]:
+            a = np.asarray(x)
+            if not q.bare and a.size and a.dtype.kind in "iufc":
+                with np.errstate(all="ignore"):
+                    m = np.abs(a.astype("c16" if a.dtype.kind == "c" else "f8"))
+                    m = m[np.isfinite(m)]
+                    floor = max(floor, float(m.max()) if m.size else 0.0)
+    numpy_dev = [None]
     unordered = t.func_name in meta.ORDER_UNSPECIFIED
     for where, x, y in pairs:
         if kind != "dyadic" and (t.func_name, where) in meta.SIGN_AMBIGUOUS_LEAVES:
             rec.count("rule1-not-judged:sign-or-order-ambiguous-leaf-with-inexact-rescaling")
             continue
-        d = compare_leaf(x, y, kind, case_eps, unordered)
+        d = compare_leaf(x, y, kind, case_eps, unordered, floor)
         sub = "out-buffer" if where == "out-buffer" else "operand" if where.startswith("operand") else "result"
         if d is None:
             rec.count(f"rule1-{sub}-leaves-compared")
@@ -598,11 +615,17 @@ def judge_case(t, call, layout, shape, dt, fam, kind, w1, w2, base, slots, rec, 
         if where in rule2_failed:
             rec.count("rule1-consequence-of-a-rule2-failure-not-repeated")     # a leaf that lost its units cannot be covariant
             continue
-        if d[0] == "not-bit-exact" and _numpy_itself_inexact(t, call, layout, w1, w2):
-            rec.count("rule1-within-64eps:numpy-itself-not-bit-exact-under-power-of-two-rescaling")
-            rec.note("numpy-itself-not-bit-exact:" + t.func_name)
-            rec.count(f"rule1-{sub}-leaves-compared")
-            continue
+        leps = max(case_eps, _eps("f8"), _eps(np.asarray(x).dtype), _eps(np.asarray(y).dtype))
+        if kind == "dyadic" and len(d) > 2 and d[2] <= 1024 * leps:
+            # a rounding-sized difference: is NumPy itself, on the bare numbers of the two runs, exactly homogeneous?
+            if numpy_dev[0] is None:
+                numpy_dev[0] = _numpy_inexactness(t, call, layout, w1, w2)
+            nd = numpy_dev[0]
+            if 0 < nd <= 1024 * leps and d[2] <= 4 * nd + 64 * leps:
+                rec.count("rule1-held-within-numpy's-own-rounding:numpy-itself-not-bit-exact-under-power-of-two-rescaling")
+                rec.note("numpy-itself-not-bit-exact:" + t.func_name)
+                rec.count(f"rule1-{sub}-leaves-compared")
+                continue
         if np.dtype(dt).kind in "iu" and _integer_artifact(t, call, layout, w1, w2):
             rec.count("discarded:integer-rounding-or-wrap-around-in-numpy")
             continue
@@ -654,18 +677,21 @@ def _integer_artifact(t, call, layout, w1, w2):
     return False
 
 
-def _numpy_itself_inexact(t, call, layout, w1, w2):
-    """is NumPy, on the bare numbers of the two runs, itself not exactly homogeneous (results not related by one power of
-    two per leaf)?  Then a last-bit difference between the runs is NumPy's (det = sign*exp(logdet), pow, log ...)"""
+def _numpy_inexactness(t, call, layout, w1, w2):
+    """largest relative deviation of NumPy's own results, on the bare numbers of the two runs, from exact homogeneity
+    (variant = base x one power of two per leaf); 0.0 when NumPy is bit-exactly homogeneous or the question cannot be asked.
+    A non-zero value of rounding size means a last-bit difference between the runs is NumPy's
+    (det = sign*exp(logdet), pow, log, exp ...)"""
     try:
         res = []
         for w in (w1, w2):
             a, k, _ = call.realize(lambda d, dim, q: np.asarray(w(d, dim, q)), layout)
             res.append([np.asarray(x) for _, x in flatten(t.observe(a, k, t.invoke(a, k))) if leaf_kind(x) != "opaque"])
     except Exception:
-        return False
+        return 0.0
     if len(res[0]) != len(res[1]):
-        return False
+        return 0.0
+    worst = 0.0
     for b1, b2 in zip(*res):
         if b1.shape != b2.shape or b1.dtype.kind not in "fc":
             continue
@@ -677,9 +703,14 @@ def _numpy_itself_inexact(t, call, layout, w1, w2):
             i = np.argmax(np.where(ok, m1, 0))
             k = round(math.log2(float(m2.reshape(-1)[i]) / float(m1.reshape(-1)[i])))
             ct = "c16" if b1.dtype.kind == "c" else "f8"
-            if not np.array_equal(b1.astype(ct) * 2.0 ** k, b2.astype(ct), equal_nan=True):
-                return True
-    return False
+            v1, v2 = b1.astype(ct) * 2.0 ** k, b2.astype(ct)
+            fin = np.isfinite(v1) & np.isfinite(v2)
+            if not fin.any():
+                continue
+            mag = float(np.max(np.abs(v2[fin])))
+            if mag > 0:
+                worst = max(worst, float(np.max(np.abs(v1[fin] - v2[fin]))) / mag)
+    return worst
 
 
 def emit(fname, fails, rec):
